@@ -4593,6 +4593,15 @@ EmitVexEvexR:
 
       // Support embedded-rounding {er} and suppress-all-exceptions {sae}.
       if (Support::test(options, InstOptions::kX86_ER | InstOptions::kX86_SAE)) {
+        // vcvtsi2sd|vcvtusi2sd - embedded rounding is only defined for a 64-bit integer source (EVEX.W1), EVEX.b is
+        // reserved in the EVEX.W0 forms.
+        if (ASMJIT_UNLIKELY((inst_id == Inst::kIdVcvtsi2sd || inst_id == Inst::kIdVcvtusi2sd) && o2.is_gp32()))
+          goto InvalidEROrSAE;
+
+        // vcmpsd|vcmpss - {sae} belongs to the EVEX form, whose destination is a mask register.
+        if (ASMJIT_UNLIKELY((inst_id == Inst::kIdVcmpsd || inst_id == Inst::kIdVcmpss) && !o0.is_mask_reg()))
+          goto InvalidEROrSAE;
+
         // Embedded rounding is only encodable if the instruction is either scalar or it's a 512-bit
         // operation as the {er} rounding predicate collides with LL part of the instruction.
         if ((x & kLLMask11) != kLLMask10) {
